@@ -5,7 +5,7 @@
    order, wall-clock and an extra user criterion are arbitrary oracles [o].
    Traces are newest-first. [flag_of tr] = value of the most recent _stop_condition evaluation in tr;
    [guarded P tr] = every event of class P occurred while the most recent evaluation before it was False. *)
-From Verif Require Import model.Base model.Tuner proofs.TunerProofs.
+From Verif Require Import model.Base model.Tuner proofs.TunerProofs proofs.TunerLivenessProofs.
 
 (* wait_trial_completion_when_stopping = False: once _stop_condition held at the end of an iteration,
    NO event of a loop iteration occurs any more (no on_loop_start, poll, result, suggest, start, resume,
@@ -21,8 +21,7 @@ Print Assumptions c12_exit_at_first_true.
    FULL STATEMENT NOT PROVED for wait=True ("no start after the criterion FIRST held"): with arbitrary
    oracles the condition can become False again (non-monotone clock or user criterion, a Stopping trial
    going back to InProgress), and the code then schedules again; that statement needs monotonicity of the
-   criterion as a hypothesis. Termination of the wait=True drain phase (fairness: every running trial
-   eventually ends) is not proved either. *)
+   criterion as a hypothesis. Termination of the wait=True drain phase under fairness: c12_drain_terminates. *)
 Theorem c12_no_start_while_stop_holds_partial :
   forall prm o fuel st x, run_loop prm o fuel = (st, x) -> guarded sched_ev (s_trace st).
 Proof. exact no_start_after_stop. Qed.
@@ -117,6 +116,37 @@ Theorem c12_failure_limit :
     exists t, out = Raised (EFailureLimit t) /\ In (t, Failed) (s_doneall st).
 Proof. exact run_failure_limit. Qed.
 Print Assumptions c12_failure_limit.
+
+(* LIVENESS of the drain phase (wait_trial_completion_when_stopping=True), under an explicit fairness
+   hypothesis on the world oracle: if after f0 loop iterations the loop is still running ([LFuel]), and from the
+   oracle cursors of that moment on (i) every look at an active worker shows a final status (Completed / Failed /
+   Stopped: [looks_final_from], i.e. every running job ends within ONE more look) and (ii) the stop criterion holds
+   at every evaluation, then the loop ends within two more iterations - for every scheduler oracle and every
+   decision it takes on the final reports - and if it ends without an exception no trial is running.
+   (A bound of K looks per worker instead of one is not stated; the world oracle is indexed by a global look
+   counter.) *)
+Theorem c12_drain_terminates :
+  forall prm o f0 st0, wait_completion prm = true -> run_loop prm o f0 = (st0, LFuel) ->
+    looks_final_from o (s_nw st0) -> (forall n, (s_nc st0 <= n)%nat -> o_ext o n = true) ->
+    exists st x, run_loop prm o (f0 + 2) = (st, x) /\ x <> LFuel /\ (x = LExit None -> s_running st = []).
+Proof. exact drain_terminates. Qed.
+Print Assumptions c12_drain_terminates.
+
+(* non-vacuity of the liveness hypotheses: 2 workers, wait=True; after 3 iterations two trials are running and the
+   loop is still going; from then on all looks are final and the criterion holds; it ends with nothing running. *)
+Definition ex12l_oracles : oracles :=
+  {| o_world := fun n => if Nat.ltb n 4 then ([{| r_metric := 1; r_cost := 0; r_ts := 1 |}], WInProgress)%Q
+                         else ([{| r_metric := 2; r_cost := 0; r_ts := 2 |}], WCompleted)%Q;
+     o_ord := fun _ => []; o_dec := fun _ => CONTINUE;
+     o_sug := fun n => SStart (Z.of_nat n) None; o_clk := fun _ => 0%Q; o_ext := fun n => Nat.leb 3 n |}.
+Definition ex12l_params : params :=
+  {| n_workers := 2; async := true; wait_completion := true; max_failures := 1; c_wallclock := None; c_evals := None;
+     c_started := None; c_completed := None; c_finished := None; c_cost := None; c_min_metric := None; c_max_metric := None |}.
+Example c12_drain_example :
+  (let '(st0, x0) := run_loop ex12l_params ex12l_oracles 3 in
+   x0 = LFuel /\ s_running st0 = [0; 1]%nat /\ s_nw st0 = 4%nat /\ s_nc st0 = 4%nat) /\
+  (let '(st, x) := run_loop ex12l_params ex12l_oracles 5 in x = LExit None /\ s_running st = []).
+Proof. vm_compute. repeat split. Qed.
 
 (* non-vacuity: max_num_trials_started = 1 with 2 workers: 2 trials get started in the first iteration
    (1 > 1 is False before), the condition holds at the end of that iteration, the run ends, both trials are
